@@ -117,6 +117,7 @@ def q1(ctx):
                                 empty = any(e.kind == 'TEST' and e.d['val'] == V('rows', ev.seq)
                                             and not e.d['truth'] for e in p.trace)
                                 d.setdefault('newkey', set()).add((side, empty, repr(pv)))
+                                d.setdefault('newkey_v', []).append((side, empty, pv))
                             if sl[0] == 'value' and sl[1] == 'raw':
                                 d.setdefault('insraw', set()).add(repr(pv))
     want_bounds = {None: (repr(C(LO)), repr(C(HI)), True, True),
@@ -168,28 +169,23 @@ def q1(ctx):
     obs.append(Ob('Q1', 'Cache.push/inserted-raw', facts[('push', None)].get('insraw') == {repr(C(True))} and
                   facts[('push', 'p')].get('insraw') == {repr(C(True))},
                   'push inserts its row with raw != True while the readers filter on raw = 1', loc))
-    # width of the number format for an existing key: evaluate the format with num = 7
+    # width of the number format for an existing key: instantiate the inserted key text with number 7
     f = ctx.method('Cache', 'push')
     fmts = []
-    for n in ast.walk(f.node):
-        if isinstance(n, ast.Call) and isinstance(n.func, ast.Attribute) and n.func.attr == 'format' and \
-                isinstance(n.func.value, ast.Constant) and isinstance(n.func.value.value, str) and len(n.args) == 2:
+    for side, empty, pv in facts[('push', 'p')].get('newkey_v', []):
+        if empty:
+            continue
+        if pv.k == 'str' and pv.a[0].count('⟦') == 1 and len(pv.a) > 2 and len(pv.a[2]) == 1 and pv.a[2][0] is not None:
+            head = pv.a[0][:pv.a[0].index('⟦')]
+            tail = pv.a[0][pv.a[0].index('⟧') + 1:]
             try:
-                fmts.append(n.func.value.value.format('p', 7))
+                fmts.append(head + format(7, pv.a[2][0]) + tail)
             except Exception:
                 fmts.append('?')
-        if isinstance(n, ast.BinOp) and isinstance(n.op, ast.Mod) and isinstance(n.left, ast.Constant) and \
-                isinstance(n.left.value, str) and isinstance(n.right, ast.Tuple) and len(n.right.elts) == 2:
-            try:
-                fmts.append(n.left.value % ('p', 7))
-            except Exception:
-                pass
-        if isinstance(n, ast.JoinedStr):
-            try:
-                fmts.append(eval(compile(ast.Expression(n), '<f>', 'eval'), {'prefix': 'p', 'num': 7}))
-            except Exception:
-                pass
-    obs.append(Ob('Q1', 'Cache.push/prefix/number-width', 'p-%015d' % 7 in fmts,
+        else:
+            fmts.append(repr(pv))
+    fmts = sorted(set(fmts))
+    obs.append(Ob('Q1', 'Cache.push/prefix/number-width', fmts == ['p-%015d' % 7],
                   'the text form of a queue key for number 7 is %s; expected %r so that text order equals numeric order '
                   'and the bounds enclose it' % (fmts, 'p-%015d' % 7), f.loc()))
     return obs
